@@ -1,6 +1,8 @@
 package main
 
 import (
+	"crypto/sha256"
+	"encoding/hex"
 	"encoding/json"
 	"fmt"
 	"os"
@@ -88,6 +90,15 @@ type World struct {
 	Panicked string // set when a Begin/EndBlock panicked (C15 universal oracle)
 
 	LastEndBlock abci.ResponseEndBlock
+
+	// replica support (C16/C20)
+	SetupPhase    bool
+	RecordDigests bool
+	Digests       []string // one line per tx / block: outcome digests compared across replicas
+	CurBlock      []*Event // events applied since the current block began (re-delivered after a crash)
+	CrashPlan     func(w *World, phase string, idx int) bool
+	replaying     bool
+	Crashes       map[string]int
 }
 
 var simHomeDir string
@@ -142,6 +153,7 @@ func NewWorld(cfg Config, nActors int) *World {
 	for i := 0; i < nActors; i++ {
 		w.Actors = append(w.Actors, mkActor(cfg.Seed, i, fmt.Sprintf("a%d", i)))
 	}
+	w.SetupPhase = true
 	w.initChain()
 	w.beginBlock(1, genesisTime.Add(5*time.Second))
 	return w
@@ -260,10 +272,51 @@ func (w *World) beginBlock(height int64, t time.Time) {
 	}()
 	w.InBlock = true
 	w.Stats.Blocks++
+	w.CurBlock = w.CurBlock[:0]
 	if w.Panicked == "" {
 		for _, f := range w.OnBlock {
 			f(w)
 		}
+	}
+	w.maybeCrash("after_begin", 0)
+}
+
+// maybeCrash drops the App object (all volatile state) when the crash plan says so, reopens the durable DB and
+// re-executes the interrupted block from its beginning, as a restarted node does.
+func (w *World) maybeCrash(phase string, idx int) {
+	if w.CrashPlan == nil || w.replaying || w.Panicked != "" {
+		return
+	}
+	if !w.CrashPlan(w, phase, idx) {
+		return
+	}
+	w.CrashRestart(phase)
+}
+
+func (w *World) CrashRestart(phase string) {
+	if w.Crashes == nil {
+		w.Crashes = map[string]int{}
+	}
+	w.Crashes[phase]++
+	w.Stats.Fault("node.crash@" + phase)
+	w.App = newApp(w.DB, w.Cfg.ChainID)
+	if phase == "after_commit" {
+		return // nothing in flight; the caller begins the next block on the fresh instance
+	}
+	w.replaying = true
+	defer func() { w.replaying = false }()
+	redo := append([]*Event(nil), w.CurBlock...)
+	func() {
+		defer func() {
+			if r := recover(); r != nil {
+				w.Panicked = fmt.Sprintf("BeginBlock (after restart) height=%d: %v", w.Hdr.Height, r)
+			}
+		}()
+		w.App.BeginBlock(abci.RequestBeginBlock{Header: w.Hdr})
+	}()
+	w.CurBlock = w.CurBlock[:0]
+	for _, ev := range redo {
+		w.Apply(ev)
 	}
 }
 
@@ -281,13 +334,74 @@ func (w *World) EndBlockAndBegin(gap time.Duration) {
 		// state of the app after an escaped panic is undefined; the run stops at the C15 oracle.
 		return
 	}
+	if w.CrashPlan != nil && !w.replaying && w.CrashPlan(w, "before_commit", 0) {
+		// crash after EndBlock but before Commit: everything of this block is lost and re-executed
+		w.CrashRestart("before_commit")
+		if w.Panicked != "" {
+			return
+		}
+		w.LastEndBlock = w.App.EndBlock(abci.RequestEndBlock{Height: w.Hdr.Height})
+	}
+	if w.RecordDigests && !w.replaying {
+		w.Digests = append(w.Digests, fmt.Sprintf("endblock h=%d %s", w.Hdr.Height, digestEndBlock(w.LastEndBlock)))
+	}
 	w.App.Commit()
+	if w.RecordDigests && !w.replaying {
+		w.Digests = append(w.Digests, fmt.Sprintf("commit h=%d apphash=%X", w.Hdr.Height, w.App.LastCommitID().Hash))
+	}
+	if w.CrashPlan != nil && !w.replaying && w.CrashPlan(w, "after_commit", 0) {
+		w.CrashRestart("after_commit")
+	}
 	w.Stats.SimSeconds += int64(gap / time.Second)
 	w.beginBlock(w.Hdr.Height+1, w.Hdr.Time.Add(gap))
 }
 
-// Ctx returns a context over the deliver state ("between two transactions").
+func digestEndBlock(r abci.ResponseEndBlock) string {
+	h := sha256.New()
+	for _, e := range r.Events {
+		h.Write([]byte(e.Type))
+		for _, a := range e.Attributes {
+			h.Write([]byte(a.Key))
+			h.Write([]byte{0})
+			h.Write([]byte(a.Value))
+			h.Write([]byte{1})
+		}
+	}
+	for _, v := range r.ValidatorUpdates {
+		h.Write([]byte(v.String()))
+	}
+	return hex.EncodeToString(h.Sum(nil)[:8])
+}
+
+func digestTx(r TxResult) string {
+	h := sha256.New()
+	for _, e := range r.Events {
+		h.Write([]byte(e.Type))
+		for _, a := range e.Attributes {
+			h.Write([]byte(a.Key))
+			h.Write([]byte{0})
+			h.Write([]byte(a.Value))
+			h.Write([]byte{1})
+		}
+	}
+	lh := sha256.Sum256([]byte(r.Log))
+	return fmt.Sprintf("code=%d gas=%d log=%s ev=%s", r.Code, r.GasUsed, hex.EncodeToString(lh[:6]), hex.EncodeToString(h.Sum(nil)[:8]))
+}
+
+// Ctx returns a context over the deliver state ("between two transactions"). After set-up it is READ-ONLY:
+// it is a cache-wrapped branch that is never written back, so generators and oracles cannot perturb the run
+// (some keeper "getters" initialise records). During set-up it is the writable deliver context.
 func (w *World) Ctx() sdk.Context {
+	ctx := w.App.BaseApp.NewContext(false, w.Hdr)
+	if w.SetupPhase {
+		return ctx
+	}
+	c, _ := ctx.CacheContext()
+	return c
+}
+
+// WCtx returns the writable deliver-state context (admin operations, packet delivery, faucet).
+func (w *World) WCtx() sdk.Context {
 	return w.App.BaseApp.NewContext(false, w.Hdr)
 }
 
@@ -380,7 +494,7 @@ func (w *World) DeliverMsgs(signer *Actor, gasLimit uint64, msgs ...sdk.Msg) TxR
 
 // Fund mints coins to addr through the mint module (set-up and faucet only; recorded as an admin event when used in a run).
 func (w *World) Fund(addr sdk.AccAddress, coins sdk.Coins) {
-	ctx := w.Ctx()
+	ctx := w.WCtx()
 	w.Faucet = w.Faucet.Add(coins...)
 	if err := w.App.BankKeeper.MintCoins(ctx, minttypes.ModuleName, coins); err != nil {
 		panic(err)
